@@ -114,6 +114,12 @@ CLAIMED.update({
                 note="Tree shapes and attribute shapes are enumerated; payloads are symbolic. Where verification hashes the attribute (AttrSetConstraint membership) the engine concretises by forking, so payload ranges are narrowed there ([-1,3], widths [7,17]). Unions the constructor refuses (PyRDLError) are skipped, as the property allows."),
 })
 
+CLAIMED.update({
+    "C18": dict(cat="bounded_symbolic", design="DESIGN.md §4 C18",
+                text="Unit-symbolic (M1) on text: option-carrying pass objects (generated dataclasses covering str/int/bool/float/optional/default/tuple/union option types and every registered pass with options) get SYMBOLIC option values - bounded symbolic text whose cells range over all of Unicode (case-split into 9 character classes), integers as solver variables rendered to symbolic decimal digits, tuples, optionals - and are printed by the real spec()/ArgSpec.__str__; the symbolic text is lexed by the real PipelineLexer (regexes executed by a backtracking matcher that walks CPython's parse tree of each pattern in sre's priority order), parsed by parse_pipeline, string literals decoded by the real StringLiteral.bytes_contents over symbolic UTF-8, and rebuilt by from_spec; z3 decides equality with the original for all values. Parsing: templates with symbolic holes must end in passes or ArgSpecParseError/ValueError.",
+                note="Floats cannot be rendered symbolically (repr is C code): enumerated boundary values only. Bounds: 3 cells over Unicode (thorough 5), 6 cells over a word alphabet (thorough 8), 7-digit ints. Two known findings (Optional[tuple] () vs None; non-finite floats) are format limitations, recorded; three defects were repaired (fix: commits)."),
+})
+
 NOT_APPLICABLE = {
     "C05": "custom assembly formats: the quantifier is over ~80 dialects' op definitions/format programs; no data dimension for a solver beyond what C04/C06 cover for leaves (DESIGN §5)",
     "C17": "pass x corpus-module cross product: deciding it means running each pair concretely; no symbolic dimension (DESIGN §5)",
